@@ -29,6 +29,7 @@ from pb_bss.distribution.mixture_model_utils import (
 )
 from pb_bss.distribution.utils import _ProbabilisticModel
 from pb_bss.utils import unsqueeze
+from pb_bss import _verif
 
 
 @dataclass
@@ -202,6 +203,11 @@ class VMFCACGMMTrainer:
                 spatial_weight=spatial_weight,
                 spectral_weight=spectral_weight
             )
+            if _verif.ENABLED:
+                _verif.report(
+                    trainer=self, iteration=iteration, model=model,
+                    affiliation=affiliation, quadratic_form=quadratic_form,
+                )
 
         return model
 
